@@ -317,6 +317,9 @@ fn main() {
             Universe { sizes: sizes_all_fixed5, ..universe_fixed("fixed-signed5-all-sizes-pre-agreed", &[(1, 0), (2, 0), (0x7fff, 0), (0x8000, 0), (0xffff, 0xffff)], 3, false) },
             universe("var-ref4", &[(1, 0), (1, 1), (2, 0), (0x3fff, 5)], 4, true),
             universe("var-signed4", &[(1, 0), (0x7fff, 0), (0x8000, 0), (0xffff, 0xffff)], 4, false),
+            // type 0 (the items that declare UUID types) with ids on both sides of 0x4000 / 0x8000
+            universe_fixed("fixed-type-zero5", &[(0, 0), (0, 0x3fff), (0, 0x4000), (0, 0xffff), (1, 0)], 3, false),
+            universe("var-type-zero4", &[(0, 1), (0, 0x4000), (0, 0x8000), (0x4000, 1)], 3, false),
         ]
     } else {
         vec![
@@ -325,6 +328,8 @@ fn main() {
             Universe { sizes: sizes_all_fixed5, ..universe_fixed("fixed-signed5-all-sizes-pre-agreed", &[(1, 0), (2, 0), (0x7fff, 0), (0x8000, 0), (0xffff, 0xffff)], 2, false) },
             universe("var-ref4", &[(1, 0), (1, 1), (2, 0), (0x3fff, 5)], 3, true),
             universe("var-signed4", &[(1, 0), (0x7fff, 0), (0x8000, 0), (0xffff, 0xffff)], 3, false),
+            universe_fixed("fixed-type-zero5", &[(0, 0), (0, 0x3fff), (0, 0x4000), (0, 0xffff), (1, 0)], 2, false),
+            universe("var-type-zero4", &[(0, 1), (0, 0x4000), (0, 0x8000), (0x4000, 1)], 3, false),
         ]
     };
     for u in &us {
